@@ -1,6 +1,6 @@
 import VaxisModel.Driver.Common
 import VaxisModel.Model.Render
-import VaxisModel.Model.RenderClip
+import VaxisModel.Model.RenderSixel
 import VaxisModel.Spec.ExpectedClip
 import VaxisModel.Spec.Display
 import VaxisModel.Spec.Expected
@@ -72,8 +72,10 @@ def firstDiff : List Tok → List Tok → Nat → Option (Nat × String × Strin
 def junkCell : DCell := .glyph "58" 1 { fg := .idx 3, bold := true, ulStyle := 1 } "" "6a756e6b"
 
 /-- "Whatever the terminal displayed before": junk in every cell, cursor somewhere else. -/
-def scramble (t : Term) : Term :=
-  { t with grid := List.replicate t.rows (List.replicate t.cols junkCell), row := t.rows - 1, col := 0, pw := false }
+def scramble (t : Term) (moveCursor : Bool) : Term :=
+  if moveCursor then
+    { t with grid := List.replicate t.rows (List.replicate t.cols junkCell), row := t.rows - 1, col := 0, pw := false }
+  else { t with grid := List.replicate t.rows (List.replicate t.cols junkCell) }
 
 def dcellStr : DCell → String
   | .glyph g w st lp l => s!"[{g} w{w} {st.toString} {lp}|{l}]"
@@ -100,6 +102,21 @@ def gridDiff (next : Grid) (exp got : List (List DCell)) : Option String :=
     | _, _ => some "row count differs"
   rowDiff 0 exp got
 
+/-- A cell flagged `sixel` lies under an image: the cell loop does not draw it, and what the terminal
+    shows there is the image's business (C20) — those positions are not compared (unless the cell
+    is covered by a wide glyph to its left, then the glyph's continuation is expected as usual). -/
+def sixelDontCare (next : Grid) (exp got : List (List DCell)) : List (List DCell) :=
+  (List.range exp.length).zipWith (fun r erow =>
+    (List.range erow.length).zipWith (fun c e =>
+      let sx := match next[r]? with
+        | some row => (match row[c]? with | some cell => cell.sixel | none => false)
+        | none => false
+      if sx && e != DCell.cont then
+        match got[r]? with
+        | some grow => (match grow[c]? with | some g => g | none => e)
+        | none => e
+      else e) erow) exp
+
 /-- C07 on the implementation: the first token of the frame that is neither baseline vocabulary nor
     allowed by the capability set. -/
 def gateViolation (caps : Caps) (toks : List Tok) : Option String :=
@@ -112,7 +129,7 @@ def verdict (s : St) (next : Grid) (t : Term) : String :=
   match t.bad with
   | some why => s!"FAIL terminal-specific behaviour relied on: {why}"
   | none =>
-  match gridDiff next (Expected.expectedC (cwOf s.dict) s.caps next) t.grid with
+  match gridDiff next (sixelDontCare next (Expected.expectedC (cwOf s.dict) s.caps next) t.grid) t.grid with
   | some d => s!"FAIL {d}"
   | none =>
   if t.pen ≠ TStyle.reset then s!"FAIL pen not reset after flush: {t.pen.toString}"
@@ -143,10 +160,12 @@ def frame (s : St) (enc : String) (implHex : String) (forceRefresh : Bool) : St 
     let refresh := s.refresh || forceRefresh
     let f : Frame := { caps := s.caps, refresh := refresh, next := next, last := s.last,
                        cursorNext := s.cn, cursorLast := s.cl, shapeNext := s.shapeN, shapeLast := s.shapeL }
-    let (last', mtoks) := renderFrameC (cwOf s.dict) f
+    let (last', mtoks) := renderFrameS (cwOf s.dict) f
     let dictBytes := s.dict.filterMap fun (g, _) => hexBytes? g
     let itoks := Tokenize.tokens dictBytes bytes
-    let t0 := if refresh then scramble s.term else s.term
+    -- the cursor is displaced too when the frame draws at least one cell (a screen entirely under
+    -- images writes no cell: its bytes are the image transmissions, which this stream does not have)
+    let t0 := if refresh then scramble s.term (next.any fun row => row.any fun c => !c.sixel) else s.term
     let t1 := Display.run (cwOf s.dict) t0 itoks
     let canon := match firstDiff mtoks itoks 0 with
       | none => let k := s!"toks={mtoks.length}"; (k, k)
@@ -163,6 +182,7 @@ def step (s : St) (line : String) : St × String :=
   | "#case" :: _ => ({}, "-\t-\t-")
   | "session" :: _ => (s, "-\t-\t-")      -- corpus scenario lines: what the harness did, for replay
   | "set" :: _ => (s, "-\t-\t-")
+  | "sixel" :: _ => (s, "-\t-\t-")
   | ["clear"] => (s, "-\t-\t-")
   | ["caps", a, b, c, d] =>
       ({ s with caps := { rgb := a == "1", styledUnderlines := b == "1", explicitWidth := c == "1", sync := d == "1" } }, "-\t-\t-")
@@ -177,10 +197,11 @@ def step (s : St) (line : String) : St × String :=
         | [g, w] => w.toNat?.map fun w => (unhex g, w)
         | _ => none
       ({ s with dict := s.dict ++ add }, "-\t-\t-")
-  | ["cell", id, g, w, fg, bg, ul, uls, attr, link, lp] =>
+  | "cell" :: id :: g :: w :: fg :: bg :: ul :: uls :: attr :: link :: lp :: sx =>
       match id.toNat?, w.toInt?, fg.toNat?, bg.toNat?, ul.toNat?, uls.toNat?, attr.toNat? with
       | some id, some w, some fg, some bg, some ul, some uls, some attr =>
-        let c : Cell := { g := unhex g, w := w, style := { link := unhex link, linkParams := unhex lp, fg := fg, bg := bg, ul := ul, ulStyle := uls, attr := attr } }
+        let c : Cell := { g := unhex g, w := w, sixel := sx == ["1"],
+                          style := { link := unhex link, linkParams := unhex lp, fg := fg, bg := bg, ul := ul, ulStyle := uls, attr := attr } }
         ({ s with cells := (id, c) :: s.cells }, "-\t-\t-")
       | _, _, _, _, _, _, _ => (s, bad3)
   | ["showcursor", c, r, st] =>
